@@ -21,12 +21,13 @@
 EXTENDS Naturals, Sequences, FiniteSets, SequencesExt, TLC
 
 CONSTANT Programs
-VARIABLES prog, begun, ended, dead, ret, bad
+VARIABLES prog,   \* the program being executed (one element of Programs)
+          begun, ended, dead, ret, bad
 
 mvars == <<begun, ended, dead, ret, bad>>
 
 Fuel == 6
-Prog == Programs[prog]
+Prog == prog      \* the program under consideration (a record of Programs)
 T(t) == Prog.tasks[t]
 Lim  == Prog.n
 NoRet == <<>>
